@@ -24,7 +24,7 @@ BYTES = {"{": b"{", "}": b"}", "[": b"[", "]": b"]", ":": b":", ",": b",", " ": 
          "<": b"<", ">": b">", "&": b"&"}
 for c in "0123456789abcdefABCDEFlnrstu":
     BYTES[c] = c.encode()
-CHUNKS = {"true": "true", "false": "false", "null": "null", "big": "922337203685477580", "str": "\"a\"", "u0041": "u0041", "u000a": "u000a",
+CHUNKS = {"e20": "1" + "0" * 20, "e21": "1" + "0" * 21, "true": "true", "false": "false", "null": "null", "big": "922337203685477580", "str": "\"a\"", "u0041": "u0041", "u000a": "u000a",
           "ud83d": "ud83d", "ude00": "ude00", "q": "\"", "bs": "\\", "sp": " "}
 
 
@@ -379,6 +379,8 @@ def _run(V, work, tier):
     # ---- documents --------------------------------------------------------------------------------------------------
     families = [("structure", ["{", "}", "[", "]", ":", ",", "sp", "str", "1", "true", "null"], 6 if thorough else 5, ""),
                 ("numbers", ["-", "0", "1", "9", ".", "e", "E", "+", "big", "sp"], 6 if thorough else 5, ""),
+                # integers around 10^20 / 10^21, where the float's canonical text changes from positional to exponent form
+                ("wide-integers", ["-", "0", "1", "e20", "e21", "big", ".", "e"], 4 if thorough else 3, ""),
                 ("strings", ["q", "bs", "a", "u", "n", "/", "0", "ctl", "hi", "bad", "u0041", "ud83d", "ude00", "ls", "nl", "b"], 5 if thorough else 4, "string")]
     if thorough:
         families.append(("numbers-in-array", ["-", "0", "1", "9", ".", "e", "+", "big", ","], 5, "array"))
